@@ -26,9 +26,9 @@ import (
 )
 
 const (
-	hangWatchdog   = 150 * time.Second // >= 120 s (brief); only classifies hangs, never an oracle
-	samplerBudget  = 4096              // draws a sampler may consume before it is classified as not terminating
-	genFillerDraws    = 20000 // fruitless draws (>= 2 s of waiting) before the deterministic stream takes over
+	hangWatchdog      = 150 * time.Second // >= 120 s (brief); only classifies hangs, never an oracle
+	samplerBudget     = 4096              // draws a sampler may consume before it is classified as not terminating
+	genFillerDraws    = 20000             // fruitless draws (>= 2 s of waiting) before the deterministic stream takes over
 	genFillerDrawsMin = 64
 )
 
@@ -46,6 +46,9 @@ func runInputs(r *core.Run) {
 		wg.Add(1)
 		go func() { defer wg.Done(); gen1024(r) }()
 	}
+	r.Assume("generator calls of part (a) use concurrency 1 and a scripted reader: the enumerated draw, then draws that are themselves Sophie Germain primes of the requested size (as many as numPrimes), then fruitless all-ones draws until the call returns (deterministic stream after 20000 of them); a single producer therefore never finds more primes than the result channel holds, which keeps the known consumer/producer deadlock (part (b)) out of part (a)")
+	r.Assume("admissible sampler inputs: GetRandomPositiveRelativelyPrimeInt and GetRandomGeneratorOfTheQuadraticResidue for n >= 2 (DESIGN 3a; for n = 1 the unit group has no element in [1,n)); GetRandomQuadraticNonResidue for odd n >= 3 (n = 1 has no non-residue); GetRandomPrimeInt for bits >= 2 (no 1-bit prime); for bounds <= 0 / nil the only in-range answer is nil")
+	r.Assume("a sampler call that consumes more than 4096 draws of the deterministic stream without returning is classified as not terminating (the acceptance rate of every admissible input here is above 5 percent per draw)")
 	phases := map[string]float64{}
 	phase := func(name string, f func(*core.Run)) {
 		t0 := time.Now()
